@@ -368,6 +368,24 @@ def run(db, tier):
             ok = (want is None and is_none) or (want is not None and got == want)
             rep.check(ok, "R-ENTRY-LAYOUT", "%s|%s" % (fname, name), of.loc, "%s header: %s at byte %s" % (name, fld, want),
                       "%s header: write_header puts %s at byte %s but %s() says %s" % (name, fld, want, fname, "None" if is_none else got))
+    # ---------------- R-ENTRY-END: where the last script of an ANM entry ends
+    rep.rule("R-ENTRY-END", "read_entry bounds every script by the closest following offset of the entry, and the start of the NEXT entry is "
+                            "one of the candidates (an entry without texture may end with a script; formats without an end marker would "
+                            "otherwise run into the next entry's header)")
+    re_ = db.fn("formats::anm::read_write::read_entry")
+    rep.fn(re_)
+    L_ = hirq.lets(re_)
+    cand = set()
+    for c in hirq.call_seq(re_.hir, ("Extend::extend", "::extend", "Vec::<T, A>::push")):
+        recv = hirq.features(re_, c.get("r") or (c["a"][0] if c.get("a") else {}), {})
+        if hirq.has_local(recv, "all_offsets"):
+            for a in c.get("a", []):
+                cand |= set(v for t_, v in hirq.features(re_, a, {}) if t_ == "field")
+    for init in L_.get("all_offsets", []):
+        cand |= set(v for t_, v in hirq.features(re_, init, {}) if t_ == "field")
+    need = {"name_offset", "thtx_offset", "secondary_name_offset", "next_offset"}
+    rep.check(need <= cand, "R-ENTRY-END", "read_entry|end candidates", re_.loc, "script end candidates: %s" % sorted(cand & need),
+              "script end candidates lack %s: the last script of such an entry is read past its end" % sorted(need - cand))
     return rep
 
 
